@@ -142,6 +142,14 @@ class _Return(Exception):
         self.value = value
 
 
+class _Continue(Exception):
+    pass
+
+
+class _Break(Exception):
+    pass
+
+
 @dataclass
 class Scenario:
     reg_values: Dict[int, int] = field(default_factory=dict)  # id(RegSym) -> virtual qubit id known to the transpiler
@@ -242,8 +250,19 @@ class Interp:
                 if n > 64:
                     raise AnalysisError("circuit evaluation: loop bound (64) exceeded")
                 self.assign(st.target, item, env, m)
-                self.block(st.body, env, m)
+                try:
+                    self.block(st.body, env, m)
+                except _Continue:
+                    continue
+                except _Break:
+                    break
+            else:
+                self.block(st.orelse, env, m)
             return
+        if isinstance(st, ast.Continue):
+            raise _Continue()
+        if isinstance(st, ast.Break):
+            raise _Break()
         if isinstance(st, ast.Try):
             try:
                 self.block(st.body, env, m)
@@ -493,8 +512,11 @@ class Interp:
         d = dotted(e)
         if d is not None and d.split(".")[0] not in env:
             r = self.repo.resolve(m, d)
-            if r is not None:
-                return self.global_value(r, d)
+            if r is not None and not (r[0] == "const" and "." in d and self.repo.resolve(m, d.rsplit(".", 1)[0]) == r):
+                try:
+                    return self.global_value(r, d)
+                except AnalysisError:
+                    pass  # e.g. a method of a module-level constant: evaluate the constant, then take the attribute
         o = self.eval(e.value, env, m)
         return self.getattr(o, e.attr, e)
 
